@@ -37,7 +37,13 @@ static Variant rand_variant(Rng &r, DataType dt) {
 
 static std::vector<Variant> rand_values(Rng &r, DataType dt, int lo, int hi) {
     std::vector<Variant> v;
-    int n = r.chance(1, 6) ? hi : r.range(lo, hi < 6 ? hi : 6);
+    // mostly a handful; every length up to hi now and then; and lengths next to powers of two (storage is extended in steps)
+    int n;
+    int k = r.range(0, 15);
+    if (k < 8) n = r.range(lo, hi < 6 ? hi : 6);
+    else if (k < 11) n = r.range(lo, hi);
+    else if (k < 13) n = hi;
+    else { n = (1 << r.range(3, 10)) + r.range(-1, 1); if (hi < 64) n = n % (hi + 1); if (n < lo) n = lo; }
     for (int i = 0; i < n; i++) v.push_back(rand_variant(r, dt));
     return v;
 }
@@ -204,6 +210,8 @@ int World::exec_frame(const Op &op) {
         case OP_frame_rows: {
             size_t n = (size_t) r.range(0, 9);
             if (r.chance(1, 4)) n = nrows + (size_t) r.range(0, 2);
+            else if (r.chance(1, 25)) n = (size_t) r.range(10, 300);                         // more than one chunk
+            else if (r.chance(1, 100)) n = (size_t) ((1 << r.range(8, 9)) + r.range(-1, 1));   // next to a power of two
             df.rows(n);
             std::vector<std::string> def; for (auto &c : m.cols) def.push_back(default_cell(c.dtype));
             m.cells.resize(n, def);
